@@ -31,6 +31,14 @@ PROPS = {
         "assumptions": ["std's integer parsing/formatting is re-modelled (Model/Codec.v), not verified",
                         "absence of panics is checked by catch_unwind on every generated input, not proved"],
     },
+    "C02": sysprop(["C02"], ["mixed", "default", "local", "adapters"], 250, 4000, GEN_RULE),
+    "C05": sysprop(["C05"], ["mixed", "default", "cancelable", "local"], 250, 4000, GEN_RULE),
+    "C06": sysprop(["C06"], ["default", "cancelable", "mixed", "local"], 250, 4000, GEN_RULE),
+    "C11": sysprop(["C11"], ["mixed", "local", "adapters"], 250, 4000, GEN_RULE),
+    "C13": sysprop(["C13"], ["adapters", "cancelable", "mixed"], 250, 4000, GEN_RULE),
+    "C14": sysprop(["C14"], ["adapters", "cancelable", "mixed"], 250, 4000, GEN_RULE),
+    "C16": sysprop(["C16"], ["mixed", "local", "default"], 250, 4000, GEN_RULE),
+    "C17": sysprop(["C17"], ["mixed", "local", "default"], 250, 4000, GEN_RULE),
     "C03": sysprop(["C03"], ["cancelable", "adapters", "exit"], 250, 4000, GEN_RULE),
     "C04": sysprop(["C04"], ["cancelable", "default", "overload"], 250, 4000, GEN_RULE),
     "C08": sysprop(["C08"], ["mixed", "exit", "cancelable", "default"], 250, 4000, GEN_RULE),
